@@ -29,8 +29,8 @@ type withChan struct {
 
 type bdestKind struct {
 	name string
-	coq  string       // the bdest term
-	mk   func() any   // a fresh destination with its initial contents
+	coq  string     // the bdest term
+	mk   func() any // a fresh destination with its initial contents
 }
 
 func ptrTo[T any](v T) func() any { return func() any { p := new(T); *p = v; return p } }
